@@ -185,6 +185,16 @@ let handle (x : sx) : ostring =
       let f = formula_of_sx f in
       Printf.sprintf "HOR %d | BF %s | PAST %s | ISBOOL %s" (int_of_nat (run_hor f)) (show_bool (run_bounded_future f))
         (show_bool (run_past_only f)) (show_bool (run_is_bool f))
+  | L [A "explain"; L fs; n; w] ->
+      let fs = List.map formula_of_sx fs and n = nat_of_sx n and w = trace_of_sx w in
+      let rho0 = OS.concat " " (List.map (fun f -> match run_rho pk_std f w n with x :: _ -> string_of_extz (Obj.magic x) | [] -> "?") fs) in
+      let exact = show_bool (List.for_all (fun f -> run_exact pk_std f w n) fs) in
+      (match run_explain fs w n with
+       | None -> "EXPL RAISE | RHO0 " ^ rho0 ^ " | EXACT " ^ exact
+       | Some tb ->
+           "EXPL " ^ OS.concat " " (List.map (fun (x, iv) -> string_of_int (int_of_nat x) ^ "=" ^
+               OS.concat "," (List.map (fun (b, e) -> string_of_int (int_of_nat b) ^ "-" ^ string_of_int (int_of_nat e)) iv)) tb)
+           ^ " | RHO0 " ^ rho0 ^ " | EXACT " ^ exact)
   | L [A "sat"; f; n; w] ->
       let f = formula_of_sx f and n = nat_of_sx n and w = trace_of_sx w in
       Printf.sprintf "SAT %s | RHO %s | EXACT %s | ISBOOL %s" (OS.concat " " (List.map show_bool (run_sat f w n)))
